@@ -92,12 +92,16 @@ class Tokenizer:
                     else:
                         raise SyntaxError(f"Unmatched closing paren {tok.string} at {tok.start}")
             else:
-                if tok.is_exact_type(")"):
+                if tok.is_exact_type(")") or tok.type == Token.ENDMARKER:
                     self._stack.append(tok)
                     self._call_macro = False
                     break
 
                 if tok.is_exact_type(","):
+                    if start is None:
+                        # empty argument: hand the comma to the parser, which reports it
+                        self._call_macro = False
+                        return tok
                     break
             end = tok.end
             if start is None:
@@ -127,6 +131,10 @@ class Tokenizer:
         for idx, tok in enumerate(self._tokengen):
             if (idx == 0) and tok.type == Token.NEWLINE:
                 continue
+            elif tok.type == Token.ENDMARKER:
+                self._stack.append(tok)
+                self._with_macro = False
+                break
             elif tok.type == Token.INDENT:
                 if (not is_indented) and (idx == 1):
                     is_indented = True
